@@ -143,7 +143,10 @@ class Report:
                 rid, r["count"], cnt[HOLDS], cnt[VIOLATION], cnt[UNKNOWN], r["text"][:110]))
         for i in self.instances:
             if i["verdict"] != HOLDS:
-                out.write("  %s %s %s [%s] %s: %s\n" % (i["verdict"], i["site"], i["function"] or "", i["rule"], i["what"], i["reason"]))
+                tag = {VIOLATION: "breaks", UNKNOWN: "undecided"}[i["verdict"]]
+                if i.get("known_finding"):
+                    tag = "known-finding"
+                out.write("  %s: %s %s [%s] %s: %s\n" % (tag, i["site"], i["function"] or "", i["rule"], i["what"], i["reason"]))
         for i, kf in known_hits:
             out.write("KNOWN-FINDING: property=%s %s\n" % (self.pid, kf.get("what", i["what"])))
         replay_dir = os.path.join(VERIF, "evidence", "replay")
